@@ -202,6 +202,58 @@ void h_pvalue_variance(void)
     vnacal_new_free(vnp);
     vnacal_free(vcp);
 }
+
+/*
+ * (e) no degrees of freedom: an exactly determined calibration (as many
+ * equations as unknown error terms) leaves no residual to test, so the
+ * consistency test has nothing to reject.  vnacal_new(3): the p-value is the
+ * probability that residuals of the observed size arise from random errors
+ * alone - for residuals that are identically zero that is 1, whatever the
+ * noise model and the solved terms.  (With 0 the solve of every minimal set
+ * of standards would be refused as soon as a noise model is given: C20.)
+ */
+void h_pvalue_df0(void)
+{
+    static const double mv[3] = { 2.0, 3.0, 5.0 };
+    static double f[1] = { 1.0e9 };
+    IN(double, x0);
+    IN(double, x1);
+    IN(double, x2);
+    double complex c[3];
+    double complex *m1[1] = { &c[0] }, *m2[1] = { &c[1] }, *m3[1] = { &c[2] };
+    double nfv[1] = { 1.0 }, trv[1] = { 1.0 };
+    double complex x[3];
+    vnacal_t *vcp;
+    vnacal_new_t *vnp;
+    vnacal_new_solve_state_t vnss;
+    double p;
+
+    ASSUME(x0 == x0 && x1 == x1 && x2 == x2);
+    for (int i = 0; i < 3; ++i)
+	c[i] = mv[i];
+    x[0] = x0; x[1] = x1; x[2] = x2;
+    ghost_err_reset();
+    vcp = vnacal_create(verif_error_fn, NULL);
+    ASSUME(vcp != NULL);
+    vnp = vnacal_new_alloc(vcp, CAL_TYPE, 1, 1, 1);
+    ASSUME(vnp != NULL);
+    ASSUME(vnacal_new_set_frequency_vector(vnp, f) == 0);
+    ASSUME(vnacal_new_add_single_reflect_m(vnp, m1, 1, 1, VNACAL_SHORT, 1) == 0);
+    ASSUME(vnacal_new_add_single_reflect_m(vnp, m2, 1, 1, VNACAL_OPEN, 1) == 0);
+    ASSUME(vnacal_new_add_single_reflect_m(vnp, m3, 1, 1, VNACAL_MATCH, 1) == 0);
+    ASSUME(vnacal_new_set_m_error(vnp, NULL, 1, nfv, trv) == 0);
+    ASSUME(vs_init(&vnss, vnp) == 0);
+    ASSUME(vs_start_frequency(&vnss, 0) == 0);
+    CHECK(vnp->vn_systems * (vnp->vn_layout.vl_t_terms - 1) == 3 && vnp->vn_equations == 3,
+	    "three equations for three unknown error terms: exactly determined");
+    REACH("state prepared");
+    p = _vnacal_new_solve_calc_pvalue(&vnss, x, 3);
+    REACH("p-value returned");
+    CHECK(p == 1.0, "without degrees of freedom nothing can be rejected: the p-value is 1");
+    vs_free(&vnss);
+    vnacal_new_free(vnp);
+    vnacal_free(vcp);
+}
 #endif
 
 #ifdef H_SIMPLE_INDEX
